@@ -23,7 +23,7 @@ func TestC20Churn(t *testing.T) {
 		}
 		defer cl.Stop()
 		if !cl.WaitMembership(Deadline()) {
-			c.Fatalf("C20: cluster did not form")
+			Missf(c, "C20: cluster did not form")
 		}
 		c.NonTrivial()
 		workers := c.Int("workers", 4, 8)
